@@ -656,6 +656,23 @@ class _Lower(ast.NodeTransformer):
         return n
 
 
+class _SplitTupleAssign(ast.NodeTransformer):
+    """`a, b = E1, E2` (none of the E's reads a or b) is `a = E1; b = E2`."""
+    def visit_Assign(self, n):
+        if len(n.targets) == 1 and isinstance(n.targets[0], ast.Tuple) and isinstance(n.value, ast.Tuple) \
+                and len(n.targets[0].elts) == len(n.value.elts) and all(isinstance(t, ast.Name) for t in n.targets[0].elts) \
+                and not any(isinstance(e, ast.Starred) for e in n.value.elts):
+            names = {t.id for t in n.targets[0].elts}
+            if not any(isinstance(x, ast.Name) and x.id in names for e in n.value.elts for x in ast.walk(e)):
+                out = []
+                for t, e in zip(n.targets[0].elts, n.value.elts):
+                    a = ast.Assign(targets=[ast.Name(t.id, ast.Store())], value=e)
+                    ast.copy_location(a, n)
+                    out.append(a)
+                return out
+        return n
+
+
 class _LoopGuards(ast.NodeTransformer):
     """In a loop body, `if c: continue` followed by REST is `if not c: REST` (the structured form the code base uses and the
     loop rules read: "nothing leaves the loop early" is about items that are skipped without being looked at)."""
@@ -690,6 +707,7 @@ class _LoopGuards(ast.NodeTransformer):
 def lower_idioms(cur_trees):
     for t in cur_trees.values():
         _Lower().visit(t)
+        _SplitTupleAssign().visit(t)
         _LoopGuards().visit(t)
         ast.fix_missing_locations(t)
 
